@@ -9,6 +9,7 @@ import (
 	"os"
 
 	"git.defalsify.org/vise.git/cache"
+	"git.defalsify.org/vise.git/db"
 	"git.defalsify.org/vise.git/persist"
 	"git.defalsify.org/vise.git/render"
 	"git.defalsify.org/vise.git/resource"
@@ -250,6 +251,11 @@ func (en *DefaultEngine) ensurePersist() error {
 	}
 	en.pe = en.pe.WithContent(st, cac)
 	err := en.pe.Load(en.cfg.SessionId)
+	if err != nil && !db.IsNotFound(err) {
+		// the record may well be there: only "not found" means a new session, anything else
+		// (a read error, a record that does not decode) must not be answered by overwriting it
+		return err
+	}
 	if err != nil {
 		logg.Infof("persister load fail. trying save in case new session", "err", err, "session", en.cfg.SessionId)
 		err = en.pe.Save(en.cfg.SessionId)
